@@ -85,7 +85,7 @@ func c06HopsChild(scPath string) int {
 		var exps []exp
 		var anchors []string
 		mkOut := func(where string) string {
-			host := pick(rng, []string{"dc.example", "sub.dc.example", "other.example", "notdc.example.org", "xdc.example"})
+			host := pick(rng, []string{"dc.example", "sub.dc.example", "other.example", "notdc.example.org", "xdc.example", "notdc.example", "my-dc.example", "a.b.dc.example"})
 			u := fmt.Sprintf("https://%s/t/%s", host, tg.next())
 			exps = append(exps, exp{u, where})
 			return u
